@@ -279,6 +279,11 @@ class Gen:
         if key in a and self.rx.random() < P["p_poly"]:
           a[key] = a[key] + " " + _f(self.rx.uniform(0, 4, size=2) * (self.rx.random(2) < 0.8))
           self.feat.add(key + "poly:joint")
+        elif key not in a and self.rx.random() < 0.3 * P["p_poly"]:
+          # purely polynomial term: the linear coefficient is exactly zero
+          c = self.rx.uniform(0.2, 4, size=2) * np.array([[1, 1], [1, 0], [0, 1]])[self.rx.integers(3)]
+          a[key] = "0 " + _f(c)
+          self.feat.add(key + "poly_only:joint")
     if P.get("p_actfrcrange") and self.rx.random() < P["p_actfrcrange"]:
       lo = self.rx.uniform(0.05, 3.0)
       a["actuatorfrcrange"] = _f([-lo, self.rx.uniform(0.05, 3.0)])
@@ -542,6 +547,10 @@ class Gen:
         if key in a and self.rx.random() < P["p_poly"]:
           a[key] = a[key] + " " + _f(self.rx.uniform(0, 4, size=2) * (self.rx.random(2) < 0.8))
           self.feat.add(key + "poly:tendon")
+        elif key not in a and self.rx.random() < 0.3 * P["p_poly"]:
+          c = self.rx.uniform(0.2, 4, size=2) * np.array([[1, 1], [1, 0], [0, 1]])[self.rx.integers(3)]
+          a[key] = "0 " + _f(c)
+          self.feat.add(key + "poly_only:tendon")
     if P.get("p_actfrcrange") and self.rx.random() < P["p_actfrcrange"]:
       lo = self.rx.uniform(0.05, 3.0)
       a["actuatorfrcrange"] = _f([-lo, self.rx.uniform(0.05, 3.0)])
